@@ -223,7 +223,13 @@ AccessV(l, r) ==
        [] l.t \in {"sym", "int"} -> [t |-> "symlist", v |-> <<l, r>>]
        [] l.t = "symlist" -> [t |-> "symlist", v |-> Append(l.v, r)]
        [] l.t = "concat" -> (LET f == Flat(l) IN IF ~DistinctKeys(f) THEN SKIP ELSE LET x == LookupIn(f, r, 1) IN IF x = None THEN U ELSE x[1])
-       [] l.t \in {"float", "range", "slice", "str", "bytes"} -> SKIP
+       \* a symbol looked up in a slice of a list or of a concatenation: among the items the slice covers
+       [] l.t = "slice" -> (IF ~(l.l.t \in {"list", "concat"} /\ IntRange(l.r) /\ l.r.l.v >= 0) THEN SKIP
+                            ELSE LET base == IF l.l.t = "concat" THEN Flat(l.l) ELSE l.l.v
+                                     hi == IF l.r.r.v + 1 > Len(base) THEN Len(base) ELSE l.r.r.v + 1
+                                     part == SubSeq(base, l.r.l.v + 1, hi) IN
+                                 IF ~DistinctKeys(part) THEN SKIP ELSE LET x == LookupIn(part, r, 1) IN IF x = None THEN U ELSE x[1])
+       [] l.t \in {"float", "range", "str", "bytes"} -> SKIP
        [] OTHER -> U
   ELSE IF r.t = "float" THEN SKIP
   ELSE IF r.t = "symlist" THEN
